@@ -299,7 +299,16 @@ sqf::runtime::runtime::result sqf::runtime::runtime::execute(sqf::runtime::runti
             m_is_exit_requested = false;
             m_is_halt_requested = false;
             m_run_timestamp = std::chrono::system_clock::now();
-            auto scopeNum = m_context_active->frames_size() - 1;
+            if (m_contexts.empty())
+            { // nothing loaded: there is no scope to leave
+                res = result::empty;
+            }
+            else if (!m_context_active)
+            { // loaded but never started
+                m_context_active = m_contexts.front();
+            }
+            auto framesNum = m_context_active ? m_context_active->frames_size() : 0;
+            auto scopeNum = framesNum > 0 ? framesNum - 1 : 0;
             m_state = state::running;
             while (!m_is_exit_requested && !m_is_halt_requested && !m_contexts.empty())
             {
@@ -357,6 +366,10 @@ sqf::runtime::runtime::result sqf::runtime::runtime::execute(sqf::runtime::runti
             m_is_halt_requested = false;
             m_run_timestamp = std::chrono::system_clock::now();
             m_state = state::running;
+            if (m_contexts.empty())
+            { // nothing loaded: the run is complete
+                res = result::empty;
+            }
             while (!m_contexts.empty())
             {
                 for (size_t i = 0; i < m_contexts.size(); i++)
@@ -504,9 +517,17 @@ sqf::runtime::runtime::result sqf::runtime::runtime::execute(sqf::runtime::runti
             bool success;
             m_state = state::running;
             std::optional<diagnostics::diag_info> dinf;
+            if (m_contexts.empty())
+            { // nothing loaded: there is no line to step over
+                res = result::empty;
+            }
+            else if (!m_context_active)
+            { // loaded but never started
+                m_context_active = m_contexts.front();
+            }
             while (!m_is_exit_requested && !m_is_halt_requested && !m_contexts.empty())
             {
-                if (!dinf.has_value())
+                if (!dinf.has_value() && !m_context_active->empty())
                 {
                     auto next_inst = m_context_active->current_frame().peek(success);
                     if (success)
@@ -521,7 +542,7 @@ sqf::runtime::runtime::result sqf::runtime::runtime::execute(sqf::runtime::runti
                 {
                     break;
                 }
-                if (dinf.has_value())
+                if (dinf.has_value() && !m_context_active->empty())
                 {
                     auto next_inst = m_context_active->current_frame().peek(success);
                     if (success && dinf.value() != (*next_inst)->diag_info())
